@@ -18,6 +18,7 @@ RULE = (
     "DPAPINGBlob.unpack(blob).pack(blob_in_envelope=False) fed back to unprotect. Oracle: unprotect(protect(x)) == x and the independent reference decryptor opens the same blob from the root key alone and the blob names the interval of the virtual clock. "
     "Nonce-mode cells are additionally run twice in a row on one KeyCache shared along the whole shard (cache history x clock x SID). DC-seeded modes additionally run every ordered pair of 12 clock positions on a fresh cache that only holds what the DC returned. Every cell is distinct by construction; non-trivial = all (each runs protect, two unprotects and the reference decryptor)."
     ' Also two async UNPROTECTS of blobs at 7 position pairs in flight at once on one empty shared cache (both need the DC), every interleaving of the two conversations within the deviation bound.'
+    " For the non-SHA512 nonce configurations every other cell uses a cache into which the root key id was loaded twice before use (load_key's defaults, then the real attributes)."
 )
 ASSUME = ["ref/cms.py + ref/gkdi.py calibrated on the 16 Windows vectors", "clock seam time.time_ns; DC with scripted security context for the public-key configurations"]
 BOUND = {"quick": "8 lengths x 4 SID shapes x 24 configs x 4 clocks x 2 layouts x 2 APIs", "thorough": "21 lengths x 45 SID shapes x 24 configs x 7 clocks x 2 x 2 (SID shapes cycled over the other dimensions for DH)"}
